@@ -113,6 +113,32 @@ def check(ctx):
                 ast.unparse(call.func) == "self.binarizer"
     ctx.check(ok, "R20.2", "the binarizer receives the decision and the reward of the same row", fb.node, fb,
               construct="def _ThompsonSampling._get_binary_rewards")
+    # on the traces: decisions and rewards handed to _get_binary_rewards stem from the same rows
+    from ..facts import calls_of
+    n_al = 0
+    for c in F.configs(lp=["ThompsonSampling"], binarizer=True):
+        for lab in ("fit", "partial_fit"):
+            root = F.trace(c, lab)
+            w = F.focus(c, root)
+            for ev, anc in calls_of(root, name="_get_binary_rewards"):
+                dv, rv = ev.a["args"].get("decisions"), ev.a["args"].get("rewards")
+                if dv is None or rv is None:
+                    continue
+
+                def hist(v):
+                    return any(isinstance(d, tuple) and len(d) == 2 and isinstance(d[0], int) and d[1] and
+                               d[1][0] in (".decisions", ".rewards", ".raw_rewards") for d in v.deps)
+
+                def batch(v, name):
+                    return ("param", name) in v.deps
+                n_al += 1
+                aligned = hist(dv) == hist(rv) and batch(dv, "decisions") and batch(rv, "rewards")
+                caller = anc[-1].a["callee"] if anc and anc[-1].kind == "call" else ev.fn
+                ctx.check(aligned, "R20.2", "the binarizer is given decisions and rewards of the same rows", ev.node,
+                          caller, "decisions %s the stored history, rewards %s: (decision, reward) pairs are "
+                          "misaligned [%s %s]" % ("include" if hist(dv) else "exclude",
+                                                  "include it" if hist(rv) else "exclude it", c.name, lab))
+    ctx.floor("R20.2", "binarizer call sites on training traces", n_al, 10)
     fg = prog.method("_Neighbors", "_get_nhood_predictions")
     fits = [c for c in ast.walk(fg.node) if isinstance(c, ast.Call) and ast.unparse(c.func) == "lp.fit"]
     ok3 = len(fits) == 1 and len({ast.unparse(a.slice) for a in fits[0].args if isinstance(a, ast.Subscript)}) == 1 \
